@@ -19,6 +19,22 @@ use uuid::Uuid;
 use vmodel::gen::{join_ndt, split_ndt};
 use vmodel::{Decl, Ty, Val};
 
+/// a u32 written as a bare var-u32, the way a hand-written codec does it
+#[derive(Debug, Clone, Copy, PartialEq, Eq)]
+pub struct VarU32(pub u32);
+impl BinarySerializer for VarU32 {
+    fn serialize<O: BinaryOutput>(&self, ctx: &mut SerializationContext<O>) -> Result<()> {
+        ctx.write_var_u32(self.0);
+        Ok(())
+    }
+}
+impl BinaryDeserializer for VarU32 {
+    fn deserialize(ctx: &mut DeserializationContext<'_>) -> Result<Self> {
+        use desert::BinaryInput;
+        Ok(VarU32(ctx.read_var_u32()?))
+    }
+}
+
 pub enum Live {
     U8(u8),
     I8(i8),
@@ -37,6 +53,7 @@ pub enum Live {
     Char(char),
     Str(String),
     Dedup(String),
+    VarU32(VarU32),
     Duration(Duration),
     Opt(Option<Box<Live>>),
     Res(std::result::Result<Box<Live>, Box<Live>>),
@@ -218,6 +235,7 @@ impl Live {
             (StrRef, Val::Str(s)) => Live::StrRef(s.clone()),
             (RcStr, Val::Str(s)) => Live::RcStr(std::rc::Rc::from(s.as_str())),
             (Dedup, Val::Str(s)) => Live::Dedup(s.clone()),
+            (VarU32, Val::Int(i)) => Live::VarU32(self::VarU32(*i as u32)),
             (Duration, Val::Duration(s, n)) => Live::Duration(std::time::Duration::new(*s, *n)),
             (Option(_), Val::None) => Live::Opt(None),
             (Option(t), Val::Some(x)) => Live::Opt(Some(std::boxed::Box::new(Live::from_val(t, x)))),
@@ -309,6 +327,7 @@ impl Live {
             Live::U128(x) => Val::U128(*x),
             Live::F32(x) => Val::F32(x.to_bits()),
             Live::F64(x) => Val::F64(x.to_bits()),
+            Live::VarU32(x) => Val::Int(x.0 as i128),
             Live::Bool(b) => Val::Bool(*b),
             Live::Unit | Live::Phantom(_) => Val::Unit,
             Live::Char(c) => Val::Char(*c as u32),
@@ -424,6 +443,7 @@ impl BinarySerializer for Live {
             Live::Char(x) => x.serialize(ctx),
             Live::Str(x) => x.serialize(ctx),
             Live::Dedup(x) => DeduplicatedString(x.clone()).serialize(ctx),
+            Live::VarU32(x) => x.serialize(ctx),
             Live::Duration(x) => x.serialize(ctx),
             Live::Opt(x) => x.serialize(ctx),
             Live::Res(x) => x.serialize(ctx),
@@ -533,6 +553,7 @@ pub fn decode_as(ty: &Ty, ctx: &mut DeserializationContext<'_>) -> Result<Live> 
         Char => Live::Char(char::deserialize(ctx)?),
         Str => Live::Str(String::deserialize(ctx)?),
         Dedup => Live::Dedup(DeduplicatedString::deserialize(ctx)?.0),
+        VarU32 => Live::VarU32(self::VarU32::deserialize(ctx)?),
         Duration => Live::Duration(std::time::Duration::deserialize(ctx)?),
         Option(t) => {
             let _g = FrameGuard::push(vec![(**t).clone()]);
